@@ -26,6 +26,7 @@ import (
 	"strconv"
 	"strings"
 	"sync"
+	"sync/atomic"
 	"time"
 
 	lua "github.com/yuin/gopher-lua"
@@ -238,13 +239,15 @@ type c12Res struct {
 	Status, Trace, Probe, Fresh string
 }
 
-// c12RunOnce: a run the hang watchdog ended is executed again (up to twice): runs are deterministic, so a real hang
+// c12RunOnce: a run the hang watchdog ended is executed once more: runs are deterministic, so a real hang
 // repeats while a stall of the whole process does not.
 func c12RunOnce(cfg c12Cfg, src string) c12Res {
 	r := c12RunOnce1(cfg, src)
-	for attempt := 0; attempt < 2 && r.Status == "hang"; attempt++ {
-		time.Sleep(time.Duration(2+3*attempt) * time.Second)
-		r = c12RunOnce1(cfg, src)
+	if r.Status == "hang" && atomic.LoadInt64(&confirmedHangs) == 0 {
+		time.Sleep(2 * time.Second)
+		if r = c12RunOnce1(cfg, src); r.Status == "hang" {
+			atomic.AddInt64(&confirmedHangs, 1)
+		}
 	}
 	return r
 }
